@@ -39,11 +39,15 @@ PROPS = {
     "C15": dict(
         title="Journal records round-trip bit-exactly; damage is never read as different data",
         modules=["FjallModel.Props.C15"],
-        theorems=["Fjall.Journal.c15_decode_encode", "Fjall.Journal.c15_roundtrip"],
+        theorems=["Fjall.Journal.c15_decode_encode", "Fjall.Journal.c15_roundtrip",
+                  "Fjall.Journal.c15_emitted_batch_authenticated"],
         statements={
             "c15_decode_encode": "decodeEntry (encodeEntry e ++ rest) = some (e, rest) for every well-formed entry",
             "c15_roundtrip": "readJournal (encodeBatches bs) = (bs, length, no error) for every list of well-formed batches, "
                              "any per-item compression choice",
+            "c15_emitted_batch_authenticated": "for ARBITRARY file bytes: every batch readJournal emits sits between a Start and an End marker in the file, "
+                             "has the announced item count, is exactly the payload decoded in between, and the stored checksum = h(re-encoding of exactly that payload) "
+                             "(different data can only be read through a hash collision)",
         },
         engines=[dict(bin="journal", args=["--mode", "c15"], cases_quick=48, cases_thorough=200,
                       profiles=["release"], profiles_thorough=["release", "dev"])],
@@ -53,7 +57,7 @@ PROPS = {
              "reader and the model reader, oracle 'error or a prefix of the batches, never different items'",
         trusted_base=JOURNAL_TB,
         assumptions=["a 64-bit non-keyed checksum cannot exclude crafted collisions; alteration results are stated under NoAccidentalMatch"],
-        level_text="Lean 4 theorems for the codec and the reader round trip (all entries, all batch lists), tied to the code by "
+        level_text="Lean 4 theorems for the codec, the reader round trip (all entries, all batch lists) and reader soundness on arbitrary bytes, tied to the code by "
                    "bit-exact writer comparison and reader comparison incl. altered files",
         level_note="trusted: Lean kernel; xxh3/LZ4 parameters; harness + extractor",
         technique="Lean 4 proof (codec inverses, reader induction) + differential correspondence",
@@ -182,13 +186,19 @@ PROPS["C07"] = dict(
     title="Optimistic transactions are serializable",
     modules=["FjallModel.Props.C07"],
     theorems=["Fjall.Tx.c07_footprint_sound", "Fjall.Tx.c07_validated_commit_replays", "Fjall.Tx.c07_writes_marked",
-              "Fjall.Tx.c07_counterexample_size_of_unmarked"],
+              "Fjall.Tx.c07_counterexample_size_of_unmarked", "Fjall.Tx.c07_serializable", "Fjall.Tx.c07_readonly_at_snapshot",
+              "Fjall.Tx.c07_conflict_no_effect"],
     statements={
         "c07_footprint_sound": "for every in-transaction program: if two snapshots agree on every key covered by the recorded footprints, all outputs and the write set are equal",
         "c07_validated_commit_replays": "if validation finds no conflict with the transactions committed since the snapshot, re-executing the program on the state at the "
                                         "commit point yields the same observations and the same commit batch (serializable in commit order)",
         "c07_writes_marked": "every key written is in the conflict-key set",
         "c07_counterexample_size_of_unmarked": "with size_of recording nothing (pre-fix), footprint soundness fails (finding F7, fixed)",
+        "c07_serializable": "forall histories (any number of open transactions; begin / op / commit / rollback / gc events in any order): the committed writers, "
+                            "executed one after the other in commit order each on the log its predecessors produced, return the outputs they returned "
+                            "concurrently and write exactly the batches of the committed log (conflict-table pruning included)",
+        "c07_readonly_at_snapshot": "forall histories: every read-only transaction's outputs = executing it alone on the committed state of its snapshot",
+        "c07_conflict_no_effect": "a refused commit leaves log and seqno unchanged",
     },
     engines=[dict(bin="tx", args=["--mode", "c07"], cases_quick=1600, cases_thorough=50000, profiles=["release"], profiles_thorough=["release", "dev"])],
     rule="case = history of <= 4 concurrently open optimistic transactions over 1-2 keyspaces driven from one thread: begin / any read or write "
@@ -197,11 +207,12 @@ PROPS["C07"] = dict(
          "Lean model; oracle: each committed writer's observations replayed serially at its commit point (read-only ones at their snapshot), "
          "committed content = serial result after every commit. non-trivial = >= 2 commits and a writer overlapped another commit or a conflict occurred",
     trusted_base=["commit is atomic under the oracle mutex (one thread drives the history; multi-thread commit interleavings are the Conc stage)",
-                  "history-level induction (pruning vs tracker invariant, real-time order) is stage 2; stage 1 proves the per-commit theorem"],
+                  "the whole-history theorem is over the sequential event model (one event at a time); the mutex that makes commit one event is C06/C14's Conc model"],
     assumptions=["snapshots are frozen (C05)", "the tracker discipline holds (after the F5 fix)"],
-    level_text="Lean 4 theorems: footprint soundness for every read method and the per-commit serializability step, for all programs; tied to the "
+    level_text="Lean 4 theorems: footprint soundness for every read method, the per-commit serializability step, and serializability of whole histories "
+               "by induction over events (incl. conflict-table pruning), for all programs; tied to the "
                "real OptimisticTxDatabase by comparing outcomes/observations of random concurrent histories and by a serial-replay oracle",
-    level_note="partial: multi-threaded commit schedules and the whole-history induction are not yet proved",
+    level_note="whole-history theorem proved over the event model; multi-threaded commit schedules rest on the commit mutex (modelled, not proved here)",
     technique="Lean 4 proof (footprint soundness by case analysis on operations, agreement-on-footprint argument) + differential correspondence",
     design_ref="6 C07",
 )
